@@ -90,6 +90,7 @@ func getSwapInSenderStates() States {
 			Events: Events{
 				Event_ActionSucceeded: State_ClaimedCsv,
 				Event_OnRetry:         State_SwapInSender_ClaimSwapCsv,
+				Event_OnTimeout:       State_SwapInSender_ClaimSwapCsv,
 			},
 		},
 		State_SwapInSender_ClaimSwapCoop: {
